@@ -257,7 +257,10 @@ bool qvector_addfirst(qvector_t *vector, const void *data) {
  * @endcode
  */
 bool qvector_addlast(qvector_t *vector, const void *data) {
-    return vector->addat(vector, vector->num, data);
+    vector->lock(vector);
+    bool ret = vector->addat(vector, vector->num, data);
+    vector->unlock(vector);
+    return ret;
 }
 
 /**
